@@ -82,7 +82,22 @@ def build_object(ospec):
         kw["style"] = ospec["style_dict"]
     with warnings.catch_warnings():
         warnings.simplefilter("ignore")
-        obj = cls(**kw)
+        ctor = ospec.get("ctor")
+        if ctor == "from_ConvexHull":
+            kw2 = {k: v for k, v in kw.items() if k not in ("vertices", "faces", "check_selfintersecting")}
+            if kw2.get("reorient_faces") == "skip":
+                kw2["reorient_faces"] = False
+            obj = cls.from_ConvexHull(points=kw["vertices"], **kw2)
+        elif ctor == "from_triangles":
+            v, f = kw["vertices"], kw["faces"]
+            tris = [cls_of("Triangle")(polarization=(0, 0, 1), vertices=[v[i] for i in face]) for face in f]
+            obj = cls.from_triangles(triangles=tris, **{k: x for k, x in kw.items() if k not in ("vertices", "faces")})
+        elif ctor == "from_mesh":
+            v, f = kw["vertices"], kw["faces"]
+            mesh = [[v[i] for i in face] for face in f]
+            obj = cls.from_mesh(mesh=mesh, **{k: x for k, x in kw.items() if k not in ("vertices", "faces")})
+        else:
+            obj = cls(**kw)
         if ospec.get("style_init"):
             obj.style  # noqa: B018  initialise the lazily created style
     return obj
